@@ -96,7 +96,7 @@ def leDigit (bw : Nat) (slice : List Nat) (i : Nat) : Outcome Nat :=
   | .ok digitBytes => .ok (Prim.fromLeBytes digitBytes)
   | .panic => .panic
 
-/-- the partial most significant digit of `from_be_slice`:
+/-- the incomplete most significant digit of `from_be_slice`:
     `last = [pad; BYTES]; for j in 0..rem { last[BYTES - rem + j] = slice[j] }` -/
 def beLastDigit (bw : Nat) (slice : List Nat) (rem pad : Nat) : Outcome Nat :=
   match forLoop (fun j db =>
@@ -109,7 +109,7 @@ def beLastDigit (bw : Nat) (slice : List Nat) (rem pad : Nat) : Outcome Nat :=
   | .ok lastBytes => .ok (Prim.fromBeBytes lastBytes)
   | .panic => .panic
 
-/-- the partial most significant digit of `from_le_slice`:
+/-- the incomplete most significant digit of `from_le_slice`:
     `addition = exact << BYTE_SHIFT; j = 0; while j + addition < len { last[j] = slice[j + addition] }` -/
 def leLastDigit (bw : Nat) (slice : List Nat) (exact pad : Nat) : Outcome Nat :=
   let addition := exact <<< byteShift bw
